@@ -17,8 +17,9 @@ RULE = ("a file database created from a small GFF3 hierarchy (gene, mRNA, exons 
         "merge / replace / error, update with no features, updates whose feature source raises after k items (inside and "
         "beyond the dialect-inspection window), delete by id / list / Feature, add_relation (new, duplicate, missing "
         "feature), close + reopen; plus random histories up to length 8 with generated batches, strategies, checklines and "
-        "failure positions.  After every step: all four tables of the file read through a fresh connection, the open object's "
-        "in-memory counters, the content of the .bak file, and the outcome class.  non-trivial = history with >= 2 steps that "
+        "failure positions; add_relation also with a child_func that re-types the child.  After every step: all four tables of the file read through a fresh connection, the open object's "
+        "in-memory counters, the content of the .bak file, the outcome class, and - through the same long-lived FeatureDB object - "
+        "db[id] for a pool of present and absent ids, count_features_of_type per type, and the ids iterated.  non-trivial = history with >= 2 steps that "
         "change the file; distinct by the sequence of operation kinds")
 ASSUMPTIONS = ["GFF3-dialect databases (update routes by the stored dialect; the GTF importer's dispatch is C03/C05's subject)",
                "the exception raised by a failing feature source is a RuntimeError (class Other)"]
@@ -56,7 +57,8 @@ ALPHA = [
     upd(1, checklines=0, fail_at=2), upd(3, checklines=10, fail_at=1),
     {"op": "delete", "ids": ["m1"], "form": "str", "backup": True},
     {"op": "delete", "ids": ["g1", "exon_1"], "form": "list", "backup": True},
-    {"op": "addrel", "p": "g1", "c": "e1", "l": 2},
+    {"op": "addrel", "p": "g1", "c": "e1", "l": 2, "retype": False},
+    {"op": "addrel", "p": "m1", "c": "e1", "l": 3, "retype": True},
     {"op": "reopen"},
 ]
 
@@ -90,7 +92,7 @@ def gen_op(rng):
                 "backup": rng.random() < 0.7}
     if r < 0.85:
         return {"op": "addrel", "p": rng.choice(["g1", "m1", "g2", "nope"]), "c": rng.choice(["e1", "m1", "exon_1", "m2"]),
-                "l": rng.choice([1, 2, 3])}
+                "l": rng.choice([1, 2, 3]), "retype": rng.random() < 0.4}
     return {"op": "reopen"}
 
 
@@ -157,6 +159,40 @@ def dump_file(path):
     return t
 
 
+POOL = ["g1", "m1", "e1", "exon_1", "exon_2", "g2", "m2", "x1", "nope"]
+TYPES = [None, "gene", "mRNA", "exon", "CDS", "retyped"]
+
+
+def feature_row(f):
+    return {"id": f.id, "seqid": f.seqid, "source": f.source, "type": f.featuretype, "s": f.start, "e": f.end, "score": f.score,
+            "strand": f.strand, "frame": f.frame, "attrs": [[k, list(v)] for k, v in f.attributes._d.items()],
+            "extra": list(f.extra), "bin": f.bin}
+
+
+def api_view(db):
+    """what the long-lived FeatureDB object itself reports: look-ups, counts, iteration"""
+    import gffutils
+    looks = []
+    for i in POOL:
+        try:
+            looks.append([i, ["ok", feature_row(db[i])]])
+        except gffutils.FeatureNotFoundError:
+            looks.append([i, ["err", "NotFound"]])
+        except Exception as ex:
+            looks.append([i, ["err", L.err_class(ex)]])
+    counts = []
+    for t in TYPES:
+        try:
+            counts.append([t, int(db.count_features_of_type(t))])
+        except Exception:
+            counts.append([t, -1])
+    try:
+        ids = [f.id for f in db.all_features()]
+    except Exception:
+        ids = ["<error>"]
+    return {"lookups": looks, "counts": counts, "ids": ids}
+
+
 def run_impl(c):
     import gffutils
     import warnings
@@ -193,7 +229,13 @@ def run_impl(c):
                         arg = list(o["ids"])
                     db.delete(arg, make_backup=o["backup"])
                 elif o["op"] == "addrel":
-                    db.add_relation(o["p"], o["c"], o["l"])
+                    if o.get("retype"):
+                        def child_func(parent, child):
+                            child.featuretype = "retyped"
+                            return child
+                        db.add_relation(o["p"], o["c"], o["l"], child_func=child_func)
+                    else:
+                        db.add_relation(o["p"], o["c"], o["l"])
                 elif o["op"] == "reopen":
                     db.conn.close()
                     db = gffutils.FeatureDB(dbfn)
@@ -207,7 +249,7 @@ def run_impl(c):
             gc.collect()
             bak = dump_file(dbfn + ".bak") if os.path.exists(dbfn + ".bak") else None
             out["steps"].append({"tables": dump_file(dbfn), "mem": sorted([k, int(v)] for k, v in dict(db._autoincrements).items()),
-                                 "bak": bak, "out": res})
+                                 "bak": bak, "out": res, "api": api_view(db)})
     finally:
         try:
             if db is not None:
@@ -227,14 +269,19 @@ def coq_op(o):
     if o["op"] == "delete":
         return "(OpDelete %s %s)" % (L.ss(o["ids"]), L.b(o["backup"]))
     if o["op"] == "addrel":
-        return "(OpAddRel %s %s %s)" % (L.s(o["p"]), L.s(o["c"]), L.z(o["l"]))
+        return "(OpAddRel %s %s %s %s)" % (L.s(o["p"]), L.s(o["c"]), L.z(o["l"]), L.b(o.get("retype", False)))
     return "OpReopen"
 
 
 def coq_step(s):
     out = "(Ok tt)" if s["out"][0] == "ok" else "(Err %s)" % L.ERR[s["out"][1]]
     mem = L.lst(["(%s, %s)" % (L.s(k), L.z(v)) for k, v in s["mem"]], "(str * Z)")
-    return "(mkStepObs %s %s %s %s)" % (imp.coq_tables(s["tables"]), mem, L.opt(s["bak"], imp.coq_tables, "tables"), out)
+    api = s["api"]
+    looks = L.lst(["(%s, %s)" % (L.s(i), L.res(r, lambda d: imp.coq_row(d, d["id"], d["bin"]))) for i, r in api["lookups"]],
+                  "(str * result row)")
+    counts = L.lst(["(%s, %s)" % (L.opt(t, L.s, "str"), L.z(n)) for t, n in api["counts"]], "(option str * Z)")
+    return "(mkStepObs %s %s %s %s %s %s %s)" % (imp.coq_tables(s["tables"]), mem, L.opt(s["bak"], imp.coq_tables, "tables"), out,
+                                                looks, counts, L.ss(api["ids"]))
 
 
 def coq_case(c, o):
